@@ -14,6 +14,8 @@ type c10Gen struct {
 	firstCol, firstVal, firstPh bool
 	maxVal                      int
 	nleaf                       int
+	unary                       int // single-operand AND/OR wrappers still available
+	simple                      bool // shape sweep: the first leaf is a 1-byte column with a 1-byte symbolic value
 }
 
 func pbEq(col, val string, ph int32) *proto.Query_Expression {
@@ -44,6 +46,16 @@ func (g *c10Gen) ident() string {
 }
 
 func (g *c10Gen) leaf() *proto.Query_Expression {
+	if g.simple {
+		g.nleaf++
+		if g.nleaf == 1 {
+			return pbEq("a", verifString("val", 1), 0)
+		}
+		if g.nleaf%2 == 0 {
+			return pbEq("b", "", 2)
+		}
+		return pbEq("c", "w", 0)
+	}
 	col := g.ident()
 	g.nleaf++
 	if g.nleaf > 1 {
@@ -80,26 +92,39 @@ func (g *c10Gen) leaf() *proto.Query_Expression {
 	return pbEq(col, "w", 0)
 }
 
+// tree unfolds every shape of the given depth; NOT and binary AND/OR consume depth,
+// single-operand AND/OR wrappers (which only code can build, never the parser) do not:
+// up to g.unary of them may be inserted anywhere.
 func (g *c10Gen) tree(depth int) *proto.Query_Expression {
-	kind := 0
+	kinds := 1
 	if depth > 0 {
-		kind = verifChoice("kind", 4)
+		kinds = 4
+	}
+	if g.unary > 0 {
+		kinds += 2
+	}
+	kind := verifChoice("kind", kinds)
+	if depth == 0 && kind >= 1 {
+		kind += 3 // without depth left only leaf and the unary wrappers are available
 	}
 	switch kind {
 	case 0:
 		return g.leaf()
 	case 1:
 		return pbNot(g.tree(depth - 1))
+	case 2, 3:
+		kids := []*proto.Query_Expression{g.tree(depth - 1), g.tree(depth - 1)}
+		if kind == 2 {
+			return pbAnd(kids...)
+		}
+		return pbOr(kids...)
+	case 4:
+		g.unary--
+		return pbAnd(g.tree(depth))
+	default:
+		g.unary--
+		return pbOr(g.tree(depth))
 	}
-	n := 1 + verifChoice("arity", 2)
-	var kids []*proto.Query_Expression
-	for i := 0; i < n; i++ {
-		kids = append(kids, g.tree(depth-1))
-	}
-	if kind == 2 {
-		return pbAnd(kids...)
-	}
-	return pbOr(kids...)
 }
 
 // c10Norm flattens directly nested nodes of the same operator and unwraps single-operand
@@ -177,14 +202,26 @@ func c10Same(a, b *proto.Query_Expression) bool {
 }
 
 func HarnessC10RoundTrip() {
+	// two sweeps: (0) every shape with simple leaf contents, (1) every leaf content variant
+	// on the small shapes — shape and content defects are largely independent
 	depth, maxVal := 2, 1
 	if verifTier() > 0 {
-		depth, maxVal = 2, 2
+		maxVal = 2
 	}
-	g := &c10Gen{firstCol: true, firstVal: true, firstPh: true, maxVal: maxVal}
+	g := &c10Gen{firstCol: true, firstVal: true, firstPh: true, maxVal: maxVal, unary: 1 + verifTier()}
+	mode := verifChoice("sweep", 2)
+	if mode == 0 {
+		g.simple = true
+	} else {
+		depth, g.unary = 1, verifTier()
+	}
 	t := g.tree(depth)
 	var gb []string
-	switch verifChoice("groupby", 3) {
+	gbChoices := 3
+	if mode == 0 {
+		gbChoices = 2
+	}
+	switch verifChoice("groupby", gbChoices) {
 	case 1:
 		gb = []string{"g"}
 	case 2:
